@@ -73,6 +73,27 @@ def run(ctx):
                     bad("gas density times Bg is not the standard-condition mass content at the requested standard conditions",
                         dict(**inp, temperature_standard=tsc, pressure_standard=psc), dict(density_times_Bg=rho * bg_s * 5.615, expected=std_s))
                     break
+        # where the Z isotherm climbs back through 1 (reduced pressure about 4.4 .. 6.5): a fine ladder of pressures through that
+        # point - Z, density and viscosity keep increasing and Z is the root (nothing special happens where the gas looks ideal)
+        if k % 6 == 2:
+            fz = lambda q: float(gas.z_factor_DAK(T, q, tpc, ppc)) - 1.0
+            lo_, hi_ = 3.0 * ppc, 9.0 * ppc
+            if hi_ / ppc <= 30 and fz(lo_) < 0 < fz(hi_):
+                for _ in range(60):
+                    mid_ = 0.5 * (lo_ + hi_)
+                    lo_, hi_ = (mid_, hi_) if fz(mid_) < 0 else (lo_, mid_)
+                pz = 0.5 * (lo_ + hi_)
+                lad = pz + 5e-4 * np.arange(-240, 241)
+                zl = np.array([float(gas.z_factor_DAK(T, float(q), tpc, ppc)) for q in lad])
+                rl = np.array([float(gas.density_DAK(T, float(q), tpc, ppc, sg)) for q in lad])
+                trl = (T + 459.67) / (tpc + 459.67)
+                zr = np.array([dak.z_solve(trl, float(q) / ppc, False) for q in lad[::16]])
+                ev += 1
+                if np.any(np.diff(zl) <= 0) or np.any(np.diff(rl) <= 0) or not np.allclose(zl[::16], zr, rtol=1e-9, atol=0):
+                    jb = int(np.argmin(np.diff(rl)))
+                    bad("in a fine pressure ladder through the point where Z passes 1 the Z-factor / density do not keep increasing, or Z is not the root of the equation of state",
+                        dict(**inp, pressure_where_Z_is_1=pz, ladder_step_psi=5e-4), dict(min_step_Z=float(np.diff(zl).min()), min_step_density=float(np.diff(rl).min()), at_pressure=float(lad[jb]),
+                                                                                            max_rel_diff_from_root=float(np.abs(zl[::16] / zr - 1).max())))
         # the same identity for the Fluid facade's array methods on pressures that lie close together (node pressures of a barely
         # depleted reservoir, a finite-difference stencil): every entry has its own Bg and its own viscosity
         if k % 4 == 1:
